@@ -73,12 +73,18 @@ def range_encoder_parts(F):
         c = [cb for cb, blk, t in local_callees(F, p['into_compressed']) if cb.self_adt == RENC and _first_arg_is_mut_self(p['into_compressed'], t)]
         if len(c) == 1:
             p['seal'] = c[0]
-    # unseal: the crate-local callee of the guard's drop
+    # unseal: the crate-local `&mut self` callee of the guard's drop - or the drop itself when it undoes the sealing in place
     p['unseal'] = None
+    p['unseal_root'] = (1, 'deref')
     if gdrop is not None:
-        c = [cb for cb, blk, t in local_callees(F, gdrop) if cb.self_adt == RENC]
+        c = [cb for cb, blk, t in local_callees(F, gdrop) if cb.self_adt == RENC and cb.receiver_kind() == '&mut self']
         if len(c) == 1:
             p['unseal'] = c[0]
+        elif not c and g in F.adts:
+            fields = [f['name'] for f in F.adts[g]['variants'][0]['fields'] if RENC.rsplit('::', 1)[-1] in F.ty_s(f['ty'])]
+            if len(fields) == 1:
+                p['unseal'] = gdrop
+                p['unseal_root'] = (1, 'deref', ('f', fields[0]), 'deref')
     # num_seal_words: the crate-local, non-trait callee shared by num_words() and unseal()
     p['num_seal_words'] = None
     cands = None
